@@ -39,9 +39,9 @@ type param struct {
 type target struct {
 	Name   string              `json:"name"`
 	File   string              `json:"file"`
-	Func   string              `json:"func"` // "name" or "Recv.name"
-	Mode   string              `json:"mode"` // body | cond | conds
-	From   string              `json:"from"` // body: first statement whose source contains this
+	Func   string              `json:"func"`  // "name" or "Recv.name"
+	Mode   string              `json:"mode"`  // body | cond | conds
+	From   string              `json:"from"`  // body: first statement whose source contains this
 	Until  string              `json:"until"` // body: stop BEFORE the first statement (after From) containing this
 	Params []param             `json:"params"`
 	Env    map[string]envEntry `json:"env"`
@@ -90,7 +90,7 @@ var external = map[string]envEntry{
 	"http.StatusInternalServerError": {"500", "int"}, "http.StatusNotImplemented": {"501", "int"},
 	"http.StatusBadGateway": {"502", "int"}, "http.StatusServiceUnavailable": {"503", "int"},
 	"http.StatusGatewayTimeout": {"504", "int"},
-	"codes.OK": {"0", "int"}, "codes.Canceled": {"1", "int"}, "codes.Unknown": {"2", "int"},
+	"codes.OK":                  {"0", "int"}, "codes.Canceled": {"1", "int"}, "codes.Unknown": {"2", "int"},
 	"codes.InvalidArgument": {"3", "int"}, "codes.DeadlineExceeded": {"4", "int"},
 	"codes.NotFound": {"5", "int"}, "codes.AlreadyExists": {"6", "int"},
 	"codes.PermissionDenied": {"7", "int"}, "codes.ResourceExhausted": {"8", "int"},
@@ -106,11 +106,12 @@ var external = map[string]envEntry{
 }
 
 type tr struct {
-	t      *target
-	env    map[string]envEntry // Go source text of an expression -> Coq
-	consts map[string]ast.Expr // package-level constants
-	vars   map[string]string   // Go local -> type
-	ignore []string
+	t         *target
+	env       map[string]envEntry // Go source text of an expression -> Coq
+	consts    map[string]ast.Expr // package-level constants
+	vars      map[string]string   // Go local -> type
+	ignore    []string
+	shiftHint string
 }
 
 func isInt(ty string) bool {
@@ -251,6 +252,47 @@ func (x *tr) expr(e ast.Expr) (string, string) {
 	return "", ""
 }
 
+// untypedShift reports whether e is (possibly parenthesised) `const << expr`.
+func untypedShift(e ast.Expr) bool {
+	for {
+		p, ok := e.(*ast.ParenExpr)
+		if !ok {
+			break
+		}
+		e = p.X
+	}
+	b, ok := e.(*ast.BinaryExpr)
+	if !ok || (b.Op != token.SHL && b.Op != token.SHR) {
+		return false
+	}
+	_, lit := b.X.(*ast.BasicLit)
+	return lit
+}
+
+// operands translates both operands of a binary expression, typing an untyped-constant
+// shift on one side by the type of the other side.
+func (x *tr) operands(l, r ast.Expr) (string, string, string, string) {
+	switch {
+	case untypedShift(l) && !untypedShift(r):
+		b, tb := x.expr(r)
+		save := x.shiftHint
+		x.shiftHint = tb
+		a, ta := x.expr(l)
+		x.shiftHint = save
+		return a, ta, b, tb
+	case untypedShift(r) && !untypedShift(l):
+		a, ta := x.expr(l)
+		save := x.shiftHint
+		x.shiftHint = ta
+		b, tb := x.expr(r)
+		x.shiftHint = save
+		return a, ta, b, tb
+	}
+	a, ta := x.expr(l)
+	b, tb := x.expr(r)
+	return a, ta, b, tb
+}
+
 func isNil(e ast.Expr) bool {
 	id, ok := e.(*ast.Ident)
 	return ok && id.Name == "nil"
@@ -286,8 +328,7 @@ func (x *tr) binary(n *ast.BinaryExpr) (string, string) {
 		}
 		fallthrough
 	case token.LSS, token.LEQ, token.GTR, token.GEQ:
-		a, ta := x.expr(n.X)
-		b, tb := x.expr(n.Y)
+		a, ta, b, tb := x.operands(n.X, n.Y)
 		ty := unify(n, ta, tb)
 		if ty == "bool" {
 			if n.Op == token.EQL {
@@ -315,8 +356,7 @@ func (x *tr) binary(n *ast.BinaryExpr) (string, string) {
 			return "(" + a + " >=? " + b + ")", "bool"
 		}
 	case token.ADD, token.SUB, token.MUL, token.QUO, token.REM:
-		a, ta := x.expr(n.X)
-		b, tb := x.expr(n.Y)
+		a, ta, b, tb := x.operands(n.X, n.Y)
 		ty := unify(n, ta, tb)
 		if ty == "untyped" {
 			ops := map[token.Token]string{token.ADD: "+", token.SUB: "-", token.MUL: "*"}
@@ -333,9 +373,12 @@ func (x *tr) binary(n *ast.BinaryExpr) (string, string) {
 		a, ta := x.expr(n.X)
 		b, _ := x.expr(n.Y)
 		if ta == "untyped" {
-			// an untyped constant shifted by a non-constant takes the type of its context;
-			// the caller (a conversion) re-types it.  Default: int.
+			// an untyped constant shifted by a non-constant takes the type of its context
+			// (Go spec, "Shifts"); operands() supplies it as a hint.  Default: int.
 			ta = "int"
+			if x.shiftHint != "" {
+				ta = x.shiftHint
+			}
 		}
 		return "(" + arith(n.Op, ta) + " " + paren(a) + " " + paren(b) + ")", ta
 	}
@@ -624,10 +667,17 @@ func (x *tr) block(stmts []ast.Stmt, k func() string, ind string) string {
 		}
 		return x.branch(c, n.Body.List, els, rest, ind)
 	case *ast.SwitchStmt:
-		if n.Init != nil || n.Tag == nil {
-			abort(n, "switch form")
+		if n.Init != nil {
+			// `switch init; tag { ... }` == `init; switch tag { ... }` (the init variable's scope is
+			// narrower in Go, which cannot change the value computed)
+			cp := *n
+			cp.Init = nil
+			return x.block(append([]ast.Stmt{n.Init, &cp}, stmts[1:]...), k, ind)
 		}
-		tag, tty := x.expr(n.Tag)
+		tag, tty := "", "bool"
+		if n.Tag != nil {
+			tag, tty = x.expr(n.Tag)
+		}
 		// desugar into an if-chain
 		var clauses []*ast.CaseClause
 		var def *ast.CaseClause
@@ -656,7 +706,11 @@ func (x *tr) block(stmts []ast.Stmt, k func() string, ind string) string {
 			for _, v := range clauses[i].List {
 				vs, vty := x.expr(v)
 				unify(v, tty, vty)
-				alts = append(alts, "("+tag+" =? "+vs+")")
+				if n.Tag == nil {
+					alts = append(alts, vs) // tagless switch: the case expressions are the conditions
+				} else {
+					alts = append(alts, "("+tag+" =? "+vs+")")
+				}
 			}
 			c := strings.Join(alts, " || ")
 			saveV, saveE := x.cloneVars(), x.cloneEnv()
@@ -878,7 +932,9 @@ func (x *tr) retExprs(at ast.Node, results []ast.Expr) string {
 		p = append(p, s)
 	}
 	out := strings.Join(p, ", ")
-	if len(p) != 1 {
+	if len(p) == 0 {
+		out = "tt"
+	} else if len(p) != 1 {
 		out = "(" + out + ")"
 	}
 	if hasErr {
